@@ -2,6 +2,8 @@ package verifsim
 
 import (
 	"encoding/json"
+	"fmt"
+	"os"
 )
 
 const LastAppliedAnnotation = "metacontroller.k8s.io/last-applied-configuration"
@@ -82,4 +84,21 @@ func CaseRand(seed uint64, i int) *Rand {
 // Only returns the case number requested by VERIF_ONLY, or -1.
 func Only() int {
 	return envInt("VERIF_ONLY", -1)
+}
+
+// Mine tells whether case i belongs to this process: VERIF_ONLY selects one case,
+// VERIF_SHARD=k/n every n-th case starting at k.
+func Mine(i int) bool {
+	if o := Only(); o >= 0 {
+		return i == o
+	}
+	sh := os.Getenv("VERIF_SHARD")
+	if sh == "" {
+		return true
+	}
+	var k, n int
+	if _, err := fmt.Sscanf(sh, "%d/%d", &k, &n); err != nil || n <= 0 {
+		return true
+	}
+	return i%n == k
 }
